@@ -29,6 +29,7 @@ import (
 	"strings"
 	"sync"
 	"sync/atomic"
+	"syscall"
 	"testing"
 	"time"
 
@@ -290,7 +291,7 @@ func Register[C any](name string, opt Options, gen func(t *rapid.T) C, run func(
 			}
 		}
 		rec := &Rec{}
-		current.Store(&runningCase{st: st, name: name, c: c, start: time.Now()})
+		current.Store(&runningCase{st: st, name: name, c: c, start: time.Now(), cpu: processCPU()})
 		err := safeRun(c, rec)
 		current.Store(nil)
 		canon, jerr := json.Marshal(c)
@@ -522,29 +523,62 @@ type runningCase struct {
 	name  string
 	c     any
 	start time.Time
+	cpu   time.Duration // CPU time of the process when the case started
 }
 
 var current atomic.Pointer[runningCase]
 
-// hangLimit: a single generated case of sequential code takes micro- to milliseconds (the largest ones a few
-// seconds); one that is still running after this long is reported as "does not return". Generous on purpose.
-func hangLimit() time.Duration {
-	if v, err := strconv.Atoi(os.Getenv("VERIF_HANG_SECONDS")); err == nil && v > 0 {
-		return time.Duration(v) * time.Second
+// processCPU is the CPU time (user + system) this process has consumed so far.
+func processCPU() time.Duration {
+	var ru syscall.Rusage
+	if syscall.Getrusage(syscall.RUSAGE_SELF, &ru) != nil {
+		return 0
 	}
-	return 100 * time.Second
+	return time.Duration(ru.Utime.Nano() + ru.Stime.Nano())
+}
+
+// A generated case that never finishes is reported as a violation ("HANG"), but the bound must not depend on how
+// busy the machine is: wall-clock time alone raised a false alarm once (a 512 MiB case of C16 under 16-fold
+// parallel load took longer than 100 s). The verdict is therefore based on the CPU time of this process, which
+// runs one case at a time:
+//   - spinning: the case has consumed more than hangCPU of CPU time (the largest generated cases need a few
+//     CPU-seconds), or
+//   - blocked: it has been running for more than hangWall and consumed (almost) no CPU time at all in that time,
+//     i.e. it is not slow but waiting for something that, in single-goroutine code without I/O, cannot come.
+//
+// A busy machine slows the wall clock of a healthy case, not its CPU time, and a healthy case that is being
+// starved still accumulates CPU time far above the "blocked" threshold.
+func hangLimits() (cpu, wall, idle time.Duration) {
+	cpu, wall, idle = 120*time.Second, 150*time.Second, 200*time.Millisecond
+	if v, err := strconv.Atoi(os.Getenv("VERIF_HANG_SECONDS")); err == nil && v > 0 {
+		cpu, wall = time.Duration(v)*time.Second, time.Duration(v)*time.Second
+	}
+	return
 }
 
 func watchHangs() {
-	limit := hangLimit()
+	cpuLimit, wallLimit, idle := hangLimits()
 	for {
 		time.Sleep(time.Second)
 		rc := current.Load()
-		if rc == nil || time.Since(rc.start) < limit {
+		if rc == nil {
 			continue
 		}
+		wall, cpu := time.Since(rc.start), processCPU()-rc.cpu
+		spinning := cpu > cpuLimit
+		blocked := wall > wallLimit && cpu < idle
+		if !spinning && !blocked {
+			continue
+		}
+		if current.Load() != rc {
+			continue // finished in the meantime
+		}
 		canon, _ := json.Marshal(rc.c)
-		err := fmt.Errorf("HANG: the case has been running for %v; the goroutine executing it:\n%s", time.Since(rc.start).Round(time.Second), hungStack())
+		how := "spinning"
+		if blocked {
+			how = "blocked"
+		}
+		err := fmt.Errorf("HANG (%s): the case has been running for %v and has consumed %v of CPU time; the goroutine executing it:\n%s", how, wall.Round(time.Second), cpu.Round(10*time.Millisecond), hungStack())
 		path := writeReplay(rc.name, "hang", canon, err)
 		rc.st.mu.Lock()
 		rc.st.Violations = []violation{{Replay: path, Error: trunc(err.Error(), 4000)}}
